@@ -2,6 +2,7 @@
 import io
 import itertools
 import os
+import warnings
 import shutil
 from fractions import Fraction
 
@@ -20,13 +21,18 @@ RULE = ('(a) round trips: random dtype (incl. structured, big-endian, bool, comp
         'S3ChunkStore (loopback endpoint); (b) pruned reads get_dask_array(index=unit-step slices incl. None/negative/'
         'empty) with recorded get_chunk requests; (c) random put/get/mark_complete/is_complete sequences; (d) '
         'chunk_metadata / chunk_id_str on random slices (negative, > width, non-unit steps, wrong shapes, object dtypes); '
-        '(e) generate_chunks on random and (thorough) all shapes <= (6,6,4) x budgets 1..64 x flags; (f) bucket-name '
+        '(e) generate_chunks through its public arguments: random shapes / budgets, dims_to_split None or axes in any order '
+        'each spelled from the front or the back (negative), repeated axes, entries naming no axis, max_dim_elements keys '
+        'spelled either way incl. two spellings of one axis with different limits and keys naming no axis, a malformed '
+        'stream with limits <= 0, and (thorough) all shapes <= (6,6,4) x budgets 1..64 x 168 flag sets; (f) bucket-name '
         'normalisation on random paths; (g) chunks handed to put_chunk / put_dask_array in 9 memory layouts (C, Fortran, '
         'transposed / strided / negative-stride / interior / axis-rotated views, unaligned, read-only; blocks of transposed '
         'dask arrays) on all back-ends incl. direct_write, with the stored .npy objects (header fortran_order/shape/dtype and '
         'body bytes) compared with the model, and foreign .npy objects (Fortran order, format 1.0/2.0) read back; (h) arrays '
         'written in several parts (equal or different chunk layouts, offsets) and/or mirrored to two stores / two array names '
-        'by ONE dask.compute call and read back (whole, part by part, indexed) by one compute call. A case is non-trivial when it stores at least two chunks / has a non-empty '
+        'by ONE dask.compute call and read back (whole, part by part, indexed) by one compute call; (i) reads that do not match '
+        'what is stored (another dtype, merged / split chunk grid, chunks never written) with errors=<number> and errors=raise: '
+        'only MISSING chunks may be replaced by the default value. A case is non-trivial when it stores at least two chunks / has a non-empty '
         'selection / actually splits a dimension / has an underscore in the bucket / has a non-C layout of a >= 2 x 2 array / puts at least two graphs; distinct by its '
         'canonical input')
 ASSUMPTIONS = ['dask merges the graphs handed to one compute call by task name (modelled: of several requests with the same '
@@ -371,12 +377,9 @@ def index_case(ctx, be, kind, case, mo):
     sreq = sorted(set(tuple(tuple(p) for p in r) for r in mo[3]))
     all_blocks = set(itertools.product(*[list(zip(np.cumsum((0,) + c[:-1]).tolist(), np.cumsum(c).tolist())) for c in chunks]))
     spec = conv(dtype, np.array(mo[4], dtype=np.int64).reshape(exp_shape))
-    # tie: implementation vs model.  Only for non-empty selections: for empty ones the model follows the unrepaired
-    # _prune_chunks (findings C07-F2/F3; a repair "keep at least one chunk" changes what is requested there), and the
-    # theorems carry the non-empty guard anyway.  The property comparison below is made for every selection.
-    if empty:
-        pass
-    elif isinstance(out, Exception):
+    # tie: implementation vs model, for every selection (the model follows _prune_chunks as repaired by d72167c: the
+    # last remaining chunk of an axis is never dropped, so empty selections are served by a real chunk)
+    if isinstance(out, Exception):
         if mo[2][0] == 0 and not (kind == 'dict'):
             ctx.disagree(sig + 'symptom=tie_raised:%s' % type(out).__name__, case, repr(out)[:200], mo[2], 'raised, model has data', kind='tie')
     elif mo[2][0] == 0:
@@ -385,7 +388,7 @@ def index_case(ctx, be, kind, case, mo):
             ctx.disagree(sig + 'symptom=tie_data', case, out.ravel()[:8].tolist(), md.ravel()[:8].tolist(), 'data differs from model', kind='tie')
     elif kind != 'dict':
         ctx.disagree(sig + 'symptom=tie_data_vs_error', case, out.ravel()[:8].tolist(), mo[2], 'data, model has error', kind='tie')
-    if req != mreq and not isinstance(out, Exception) and not empty:
+    if req != mreq and not isinstance(out, Exception):
         ctx.disagree(sig + 'symptom=tie_requests', case, req[:6], mreq[:6], 'requested chunks differ from model', kind='tie')
     # property: implementation vs spec
     if isinstance(out, Exception):
@@ -533,6 +536,8 @@ def run_ops(ctx, be, n):
 class _Chunk:
     def __init__(self, shape, hasobject):
         self.shape = tuple(shape)
+        self.ndim = len(self.shape)
+        self.size = int(np.prod(self.shape, dtype=np.int64)) if self.shape else 1
         self.dtype = np.dtype(object if hasobject else 'u1')
 
 
@@ -585,6 +590,8 @@ def run_names(ctx, n):
             impl = [0, nm, list(shp)]
         except (TypeError, ChunkStoreError) as e:
             impl = [err_code(e)]
+        except Exception as e:
+            impl = ['raised', type(e).__name__]
         model = [0, destr(mo[1]), mo[2]] if mo[0] == 0 else [mo[0]]
         if impl != model:
             ctx.disagree('op=chunk_metadata;impl=%s;model=%s' % (impl[0], model[0]), c, impl, model,
@@ -597,6 +604,36 @@ def run_names(ctx, n):
 # ---------------------------------------------------------------------------------------------------
 # (e) generate_chunks
 
+def gc_norm(nd, i):
+    """NumPy reading of an axis number: position or None."""
+    if 0 <= i < nd:
+        return i
+    if -nd <= i < 0:
+        return i + nd
+    return None
+
+
+def gc_args(c):
+    """(M, dims as given or the default, limits as given) of a case."""
+    mcs = Fraction(c['mcs'][0], c['mcs'][1])
+    M = mcs / c['itemsize']
+    nd = len(c['shape'])
+    dims = list(range(nd)) if c['dims'] is None else list(c['dims'])
+    mde = [] if c['mde'] is None else [list(kv) for kv in c['mde']]
+    return M, dims, mde
+
+
+def gc_limits(nd, dims, mde):
+    """axis -> strictest limit among the keys naming it, for nominated axes only (the spec's reading)."""
+    nominated = [gc_norm(nd, i) for i in dims]
+    lim = {}
+    for k, v in mde:
+        a = gc_norm(nd, k)
+        if a is not None and a in nominated:
+            lim[a] = min(v, lim.get(a, v))
+    return [a for a in nominated if a is not None], lim
+
+
 def gc_robust(shape, M, dims, pow2, mde):
     """True when every float64 decision of generate_chunks provably equals the exact-arithmetic decision."""
     def dyadic(q):
@@ -604,14 +641,19 @@ def gc_robust(shape, M, dims, pow2, mde):
         return d & (d - 1) == 0
     if not dyadic(M):
         return False
+    nd = len(shape)
+    axes, lim = gc_limits(nd, dims, mde)
     de = list(shape)
-    for i in dims:
-        if i in mde and mde[i] < shape[i]:
-            de[i] = 2 ** (mde[i].bit_length() - 1) if pow2 else mde[i]
+    for i in axes:
+        if i in lim and lim[i] < shape[i]:
+            de[i] = 2 ** (lim[i].bit_length() - 1) if pow2 else lim[i]
     for d in dims:
         cur = int(np.prod(de, dtype=object))
         if cur <= M:
             break
+        d = gc_norm(nd, d)
+        if d is None:
+            break           # IndexError in both
         x = Fraction(de[d]) * M / cur
         if x < 1:
             t = 1
@@ -631,13 +673,15 @@ def gc_case(ctx, c, mo, quiet=False):
     shape, dims, pow2, mde = c['shape'], c['dims'], c['pow2'], c['mde']
     kw = {}
     if dims is not None:
-        kw['dims_to_split'] = dims
+        kw['dims_to_split'] = tuple(dims) if c.get('dims_tuple', True) else list(dims)
     if mde is not None:
         kw['max_dim_elements'] = {int(k): v for k, v in mde}
     mcs = Fraction(c['mcs'][0], c['mcs'][1])
     arg = mcs.numerator if mcs.denominator == 1 else float(mcs)
     try:
-        out = generate_chunks(tuple(shape), np.dtype('V%d' % c['itemsize']), arg, power_of_two=pow2, **kw)
+        with warnings.catch_warnings():
+            warnings.simplefilter('ignore')
+            out = generate_chunks(tuple(shape), np.dtype('V%d' % c['itemsize']), arg, power_of_two=pow2, **kw)
         out = [list(map(int, x)) for x in out]
     except Exception as e:
         out = e
@@ -645,47 +689,93 @@ def gc_case(ctx, c, mo, quiet=False):
 
 
 def gc_wire(c, out):
-    mcs = Fraction(c['mcs'][0], c['mcs'][1])
-    M = mcs / c['itemsize']
-    dims = list(range(len(c['shape']))) if c['dims'] is None else c['dims']
-    mde = [] if c['mde'] is None else [list(kv) for kv in c['mde']]
-    return [7, [4, c['shape'], M.numerator, M.denominator, dims, c['pow2'], mde, out]], M, dims, dict((k, v) for k, v in mde)
+    M, dims, mde = gc_args(c)
+    return [73, [c['shape'], M.numerator, M.denominator, [] if c['dims'] is None else [list(c['dims'])], c['pow2'],
+                 [] if c['mde'] is None else [[list(kv) for kv in c['mde']]], out]], M, dims, mde
+
+
+def gc_flags(c, dims, mde, detail=False):
+    """Shape class of the arguments: how the axes are spelled in dims_to_split and in the keys of max_dim_elements."""
+    nd = len(c['shape'])
+    ax = []
+    if c['dims'] is None:
+        ax.append('all')
+    else:
+        if any(-nd <= i < 0 for i in dims):
+            ax.append('neg')
+        if any(gc_norm(nd, i) is None for i in dims):
+            ax.append('oor')
+        if detail and len(set(gc_norm(nd, i) for i in dims)) < len(dims):
+            ax.append('rep')
+    keys = []
+    if mde:
+        if any(-nd <= k < 0 for k, _ in mde) or (not detail and len(set(gc_norm(nd, k) for k, _ in mde)) < len(mde)):
+            keys.append('neg')
+        if detail and any(gc_norm(nd, k) is None for k, _ in mde):
+            keys.append('oor')
+        if detail and len(set(gc_norm(nd, k) for k, _ in mde)) < len(mde):
+            keys.append('alias')
+    return 'pow2=%d;caps=%s;dims=%s' % (c['pow2'], ('+'.join(keys) or '1') if mde else '0', '+'.join(ax) or 'subset')
 
 
 def gc_check(ctx, c, out, mo, M, dims, mde):
-    model, ok_impl, ok_model, dom = mo
-    flags = 'pow2=%d;caps=%d;dims=%s' % (c['pow2'], bool(mde), 'all' if c['dims'] is None else 'subset')
+    model, ok_impl, ok_model, dom, valid = mo
+    flags = gc_flags(c, dims, mde)
+    raised = isinstance(out, Exception)
+    ctx.traces_validated += 1
     if not dom:
+        # malformed arguments (a limit <= 0, ...): the property only demands "rejected, not answered wrongly"
+        ctx.count('gc_malformed')
+        if not raised and not ok_impl:
+            ctx.disagree('op=generate_chunks;limits=nonpositive;symptom=answered:%s' % gc_symptom(c, out, M, dims, mde), c, out,
+                         None, 'generate_chunks answers malformed arguments with a scheme that violates the chunking spec',
+                         spec='chunks_ok_py = false')
         return
-    if isinstance(out, Exception):
-        ctx.disagree('op=generate_chunks;%s;symptom=raised:%s' % (flags, type(out).__name__), c, repr(out)[:200], model,
-                     'generate_chunks raised on an in-domain input')
-        return
+    model_raises = model[0] != 0
+    mchunks = None if model_raises else model[1]
     if not ok_model:
-        ctx.disagree('op=generate_chunks;%s;symptom=model_not_ok' % flags, c, out, model, 'model output violates chunks_ok', kind='tie')
+        ctx.disagree('op=generate_chunks;%s;symptom=model_not_ok' % flags, c, repr(out)[:200], model, 'model output violates chunks_ok_py', kind='tie')
+    if raised:
+        if model_raises and isinstance(out, IndexError):
+            ctx.count('gc_index_error')
+            return
+        ctx.disagree('op=generate_chunks;%s;symptom=raised:%s' % (flags, type(out).__name__), c, repr(out)[:200], model,
+                     'generate_chunks raised on an in-domain input' if valid else
+                     'generate_chunks raised where the model returns (or raised something other than IndexError)',
+                     kind='property' if valid else 'tie')
+        return
     if not ok_impl:
         ctx.disagree('op=generate_chunks;%s;symptom=%s' % (flags, gc_symptom(c, out, M, dims, mde)), c, out, model,
-                     'chunking scheme violates tiling / size budget / power-of-two / per-dimension limits', spec='chunks_ok = false')
-    elif out != model and gc_robust(c['shape'], M, dims, c['pow2'], mde):
+                     'chunking scheme violates tiling / size budget / power-of-two / per-dimension limits (axis numbers read '
+                     'the NumPy way)', spec='chunks_ok_py = false')
+    elif model_raises:
+        ctx.disagree('op=generate_chunks;%s;symptom=returned_where_model_raises' % flags, c, out, model,
+                     'generate_chunks returned where the model of the source raises IndexError', kind='tie')
+    elif out != mchunks and gc_robust(c['shape'], M, dims, c['pow2'], mde):
         ctx.disagree('op=generate_chunks;%s;symptom=differs_from_model' % flags, c, out, model,
                      'chunking differs from the exact-arithmetic model of the algorithm', kind='tie')
-    ctx.traces_validated += 1
 
 
 def gc_symptom(c, out, M, dims, mde):
     shape = c['shape']
-    if len(out) != len(shape) or any(sum(o) != s or min(o) <= 0 for o, s in zip(out, shape)):
+    nd = len(shape)
+    if len(out) != nd or any(sum(o) != s or not o or min(o) <= 0 for o, s in zip(out, shape)):
         return 'not_tiling'
-    if any(i in mde and max(out[i]) > mde[i] for i in dims):
+    axes, lim = gc_limits(nd, dims, mde)
+    if any(max(out[i]) > lim[i] for i in lim):
         return 'dim_cap'
     if c['pow2'] and any(v & (v - 1) for o in out for v in o[:-1]):
         return 'not_pow2'
-    if any(len(o) > 1 for i, o in enumerate(out) if i not in dims):
+    if any(len(o) > 1 for i, o in enumerate(out) if i not in axes):
         return 'unsplit_dim_split'
     return 'budget'
 
 
-def run_gen_chunks(ctx, n):
+def gc_spell(rng, nd, i, p=0.35):
+    return i - nd if rng.random() < p else i
+
+
+def run_gen_chunks(ctx, n, be=None):
     rng = ctx.rng
     cases = []
     for _ in range(n):
@@ -700,18 +790,87 @@ def run_gen_chunks(ctx, n):
             mcs = [rng.randint(1, 4 * max(2, total)), 4]
         else:
             mcs = [rng.choice([1, 10, 1000, 10 ** 6, 2 ** 40]), 1]
+        # dims_to_split: None, or axes in any order, each spelled from the front or from the back, now and then an
+        # axis twice (same or other spelling) and an entry that names no axis (mostly last, where it is often not reached)
         dims = None
-        if rng.random() < 0.5:
-            dims = rng.sample(range(nd), rng.randint(0, nd))
+        if rng.random() < 0.6:
+            dims = [gc_spell(rng, nd, i) for i in rng.sample(range(nd), rng.randint(0, nd))]
+            if dims and rng.random() < 0.15:
+                i = rng.choice(dims)
+                dims.insert(rng.randint(0, len(dims)), rng.choice([i, i + nd if i < 0 else i - nd]))
+            if rng.random() < 0.12:
+                bad = rng.choice([nd, nd + rng.randint(1, 20), -nd - 1, -nd - rng.randint(2, 20), 17])
+                dims.insert(len(dims) if rng.random() < 0.6 else rng.randint(0, len(dims)), bad)
+        # max_dim_elements: keys spelled either way, now and then both spellings of an axis with different limits,
+        # a key that names no axis; malformed stream: a limit <= 0
         mde = None
-        if rng.random() < 0.5:
-            mde = [[i, rng.choice([1, 2, 3, 4, 5, 8, 13, 100])] for i in rng.sample(range(nd), rng.randint(0, nd))]
+        if rng.random() < 0.55:
+            vals = [1, 2, 3, 4, 5, 8, 13, 100]
+            mde = [[gc_spell(rng, nd, i), rng.choice(vals)] for i in rng.sample(range(nd), rng.randint(0, nd))]
+            if mde and rng.random() < 0.15:
+                k = rng.choice(mde)[0]
+                mde.insert(rng.randint(0, len(mde)), [k + nd if k < 0 else k - nd, rng.choice(vals)])
+            if rng.random() < 0.08:
+                mde.insert(rng.randint(0, len(mde)), [rng.choice([nd, -nd - 1, 17, nd + 3]), rng.choice(vals)])
+            if mde and rng.random() < 0.04:
+                rng.choice(mde)[1] = rng.choice([0, -1, -3])
         cases.append(dict(shape=shape, itemsize=itemsize, mcs=mcs, dims=dims, pow2=rng.random() < 0.5, mde=mde))
-    run_gc_batch(ctx, cases, sample=True)
+    # the way katdal's writers call it: (dumps, channels, corrprods), time / frequency splittable from the front or the back,
+    # power-of-two chunks with per-dimension limits, budgets of 0.1 .. 100 MB (float64 arguments such as 1e6)
+    for _ in range(max(1, n // 12)):
+        shape = [rng.choice([1, 10, 37, 100, 720]), rng.choice([1024, 4096, 8192, 32768, 1000]), rng.choice([40, 144, 800, 2016])]
+        itemsize = rng.choice([8, 4, 1])
+        mcs = [rng.choice([10 ** 5, 10 ** 6, 3 * 10 ** 6, 10 ** 7, 10 ** 8, 2 ** 20, 2 ** 24, int(np.prod(shape)) * itemsize // rng.choice([1, 10, 16])]), 1]
+        dims = rng.choice([[0, 1], [-3, -2], [0, -2], [1], [-2, 0], None, [0, 1, 17]])
+        mde = rng.choice([None, [[0, rng.choice([1, 4, 32])], [1, rng.choice([64, 256, 1000])]],
+                          [[-3, rng.choice([2, 10])], [-2, rng.choice([50, 1024])]], [[0, 2], [-2, 50], [1, 64]]])
+        cases.append(dict(shape=shape, itemsize=itemsize, mcs=mcs, dims=dims, pow2=rng.random() < 0.7, mde=mde))
+        ctx.count('gc_katdal_like')
+    run_gc_batch(ctx, cases, sample=True, be=be, roundtrips=ctx.scale(45, 450))
 
 
-def run_gc_batch(ctx, cases, sample=False):
+def gc_round_trip(ctx, be, c, out, kind):
+    """The scheme generate_chunks returned is used as the chunking of put_dask_array / get_dask_array (clause "any
+    chunking ... reads back identical" composed with the generator: theorem C07_generated_chunks_round_trip)."""
+    shape = tuple(c['shape'])
+    chunks = tuple(tuple(o) for o in out)
+    dtype = np.dtype('<i4')
+    x = np.arange(int(np.prod(shape)), dtype=dtype).reshape(shape)
+    store, name, keys = be.new(kind, shape, dtype)
+    sig = 'op=generate_chunks_roundtrip;backend=%s;' % kind
+    try:
+        with dask.config.set(**SYNC):
+            res = store.put_dask_array(name, da.from_array(x, chunks=chunks)).compute()
+            ok = all(r is None for r in res.ravel())
+            back = np.asarray(store.get_dask_array(name, chunks, dtype, errors='raise').compute())
+        if not ok:
+            ctx.disagree(sig + 'symptom=put_failed', c, repr(res.ravel()[:4]), None, 'a block of the generated chunking was not stored')
+        elif not same(back, x):
+            ctx.disagree(sig + 'symptom=wrong_data', c, back.ravel()[:8].tolist(), None, 'array stored with the generated chunking reads back differently',
+                         spec=x.ravel()[:8].tolist())
+        if keys is not None and ok:
+            nblocks = int(np.prod([len(o) for o in chunks]))
+            if len([k for k in keys() if k.endswith('.npy')]) != nblocks:
+                ctx.disagree(sig + 'symptom=object_count', c, len(keys()), nblocks, 'number of stored objects differs from the number of blocks')
+    except Exception as e:
+        ctx.disagree(sig + 'symptom=raised:%s' % type(e).__name__, c, repr(e)[:200], None, 'round trip with the generated chunking raised')
+    be.done()
+    ctx.traces_validated += 1
+    ctx.count('gc_roundtrip:' + kind)
+
+
+def run_gc_batch(ctx, cases, sample=False, be=None, roundtrips=0):
     outs = [gc_case(ctx, c, None) for c in cases]
+    if be is not None:
+        done = 0
+        for c, o in zip(cases, outs):
+            if done >= roundtrips:
+                break
+            if not isinstance(o, Exception) and 1 < int(np.prod(c['shape'])) <= 600 and len(o) == len(c['shape']) \
+                    and all(sum(x) == n and x and min(x) > 0 for x, n in zip(o, c['shape'])) \
+                    and 1 < int(np.prod([len(x) for x in o])) <= 64:
+                gc_round_trip(ctx, be, c, o, ['dict', 'npy', 's3'][done % 3])
+                done += 1
     wires = [gc_wire(c, [] if isinstance(o, Exception) else o) for c, o in zip(cases, outs)]
     mos = ctx.model([w[0] for w in wires])
     for c, o, w, mo in zip(cases, outs, wires, mos):
@@ -720,14 +879,17 @@ def run_gc_batch(ctx, cases, sample=False):
         ctx.note_case(('gc', repr(c)), nontrivial=split, sample=dict(op='generate_chunks', out=None if isinstance(o, Exception) else o, **c) if sample else None)
         ctx.count('generate_chunks')
         ctx.count('gc_split=%s' % split)
+        if sample:
+            for part in gc_flags(c, w[2], w[3], detail=True).split(';')[1:]:
+                ctx.count('gc_' + part)
 
 
 def run_gc_exhaustive(ctx):
     cases = []
     flagsets = []
     for pow2 in (False, True):
-        for dims in (None, [0], [1], [2], [0, 1], [1, 0], [2, 0], [1, 2], [2, 1, 0]):
-            for mde in (None, [[0, 2]], [[1, 3], [2, 1]], [[0, 5], [1, 2], [2, 3]]):
+        for dims in (None, [0], [1], [2], [0, 1], [1, 0], [2, 0], [1, 2], [2, 1, 0], [-1], [0, -1], [-3, 2], [-2, 1, 0], [1, 3]):
+            for mde in (None, [[0, 2]], [[1, 3], [2, 1]], [[0, 5], [1, 2], [2, 3]], [[-1, 2]], [[2, 3], [-1, 2], [-3, 4]]):
                 flagsets.append((pow2, dims, mde))
     for a in range(1, 7):
         for b in range(1, 7):
@@ -1255,6 +1417,90 @@ def multi_case(ctx, be, c, parts, meaning, mo):
 
 
 # ---------------------------------------------------------------------------------------------------
+# (i) reads that do not match what is stored: another dtype, another chunk grid over the same array, chunks that were
+#     never written -- errors=<number> may replace MISSING chunks only, never a chunk that is there but does not fit
+
+DT_PAIRS = [('<i4', '<f4'), ('<i4', '>i4'), ('u1', '?'), ('<f8', '<c8'), ('<u2', '<i2'), ('>f8', '<f8'), ('S3', 'S2')]
+
+
+def gen_mismatch_cases(ctx, n):
+    rng = ctx.rng
+    out = []
+    for i in range(n):
+        kind = ['npy', 's3'][i % 2]
+        chunks = rand_chunks(rng, allow0=False)
+        while not chunks:
+            chunks = rand_chunks(rng, allow0=False)
+        variant = rng.choice(['dtype', 'regrid', 'split', 'missing', 'none'])
+        dput, dget = rng.choice(DT_PAIRS) if variant == 'dtype' else (rng.choice(['<i4', '>f8', 'u1', '<c8']),) * 2
+        cput, cget, part = [list(c) for c in chunks], [list(c) for c in chunks], None
+        ax = rng.randrange(len(chunks))
+        if variant == 'regrid':
+            if len(cget[ax]) < 2:
+                variant = 'none'
+            else:
+                k = rng.randrange(len(cget[ax]) - 1)
+                cget[ax][k:k + 2] = [cget[ax][k] + cget[ax][k + 1]]
+        elif variant == 'split':
+            big = [k for k, v in enumerate(cget[ax]) if v >= 2]
+            if not big:
+                variant = 'none'
+            else:
+                k = rng.choice(big)
+                a = rng.randint(1, cget[ax][k] - 1)
+                cget[ax][k:k + 1] = [a, cget[ax][k] - a]
+        elif variant == 'missing':
+            if len(cput[ax]) < 2:
+                variant = 'none'
+            else:
+                part = [ax, rng.randint(1, len(cput[ax]) - 1)]      # only the first chunks of this axis are written
+                cput[ax] = cput[ax][:part[1]]
+        out.append((kind, dict(variant=variant, dput=dput, dget=dget, cput=cput, cget=cget, errors=rng.choice([0, 0, 'raise']))))
+    return out
+
+
+def run_mismatch_cases(ctx, be, cases):
+    nm = {'npy': 'x', 's3': 'b_k/x_y'}
+    mc = []
+    for kind, c in cases:
+        mc.append([72, [1, [[0, codes(nm[kind]), 7, 1, c['cput'], [], 0]],
+                        [[0, codes(nm[kind]), 7 if c['dput'] == c['dget'] else 8, c['cget'], [], []]], c['errors'] != 'raise']])
+    mos = ctx.model(mc)
+    for (kind, c), mo in zip(cases, mos):
+        mres = mo[2][0]
+        dput, dget = np.dtype(c['dput']), np.dtype(c['dget'])
+        pshape = tuple(sum(x) for x in c['cput'])
+        gshape = tuple(sum(x) for x in c['cget'])
+        # the model labels what is written by its own raveling (the written part, for variant 'missing')
+        plabels = np.arange(int(np.prod(pshape))).reshape(pshape)
+        xput = conv(dput, plabels)
+        sig = 'op=mismatch;backend=%s;variant=%s;errors=%s;' % (kind, c['variant'], 'raise' if c['errors'] == 'raise' else 'default')
+        store, name, keys = be.new(kind, gshape, dput, nm[kind])
+        with dask.config.set(**SYNC):
+            try:
+                store.put_dask_array(name, da.from_array(xput, chunks=tuple(tuple(x) for x in c['cput']))).compute()
+                out = np.asarray(store.get_dask_array(name, tuple(tuple(x) for x in c['cget']), dget, errors=c['errors']).compute())
+            except Exception as e:
+                out = e
+        be.done()
+        if mres[0] == 0:
+            exp = conv(dget, np.array(mres[1], dtype=np.int64).reshape(gshape))
+            if isinstance(out, Exception):
+                ctx.disagree(sig + 'symptom=raised:%s' % type(out).__name__, c, repr(out)[:200], mres[1][:8], 'read raised, the model has data')
+            elif not same(out, exp):
+                ctx.disagree(sig + 'symptom=wrong_data', c, out.ravel()[:8].tolist(), exp.ravel()[:8].tolist(),
+                             'data differ from the model (stored elements, default value only where a chunk is missing)')
+        elif not isinstance(out, Exception):
+            ctx.disagree(sig + 'symptom=data_instead_of_error', c, out.ravel()[:8].tolist(), mres,
+                         'a stored chunk that does not fit the request (dtype / shape) was answered with data instead of BadChunk')
+        elif c['errors'] != 'raise' and err_code(out) != mres[0]:
+            ctx.disagree(sig + 'symptom=error_class', c, repr(out)[:120], mres, 'error class differs from the model', kind='tie')
+        ctx.traces_validated += 1
+        ctx.note_case(('mm', kind, repr(c)), nontrivial=c['variant'] != 'none', sample=dict(op='mismatch', backend=kind, **c))
+        ctx.count('mismatch:' + c['variant'])
+
+
+# ---------------------------------------------------------------------------------------------------
 
 def run_witness(ctx, be, w):
     kind = w.get('kind')
@@ -1271,6 +1517,8 @@ def run_witness(ctx, be, w):
         run_layout_cases(ctx, be, [(w['backend'], w['case'])])
     elif kind == 'foreign':
         run_foreign_cases(ctx, be, [(w['backend'], w['case'])])
+    elif kind == 'mismatch':
+        run_mismatch_cases(ctx, be, [(w['backend'], w['case'])])
 
 
 def run(ctx):
@@ -1286,19 +1534,22 @@ def run(ctx):
                 run_witness(ctx, be, f['witness'])
             run_names(ctx, ctx.scale(300, 3000))
             run_buckets(ctx, ctx.scale(300, 3000))
-            run_gen_chunks(ctx, ctx.scale(3000, 40000))
+            run_gen_chunks(ctx, ctx.scale(3000, 40000), be)
             run_roundtrips(ctx, be, gen_roundtrips(ctx, ctx.scale(480, 6000)))
             run_index_cases(ctx, be, gen_index_cases(ctx, ctx.scale(300, 4500)))
             run_ops(ctx, be, ctx.scale(120, 1500))
             run_layout_cases(ctx, be, gen_layout_cases(ctx, ctx.scale(400, 4800)))
             run_foreign_cases(ctx, be, gen_foreign_cases(ctx, ctx.scale(120, 1500)))
             run_multi_cases(ctx, be, gen_multi_cases(ctx, ctx.scale(300, 3600)))
+            run_mismatch_cases(ctx, be, gen_mismatch_cases(ctx, ctx.scale(120, 1500)))
             if ctx.tier == 'thorough':
                 run_gc_exhaustive(ctx)
                 sample = [[7, [6, 5, z]] for z in (0, 7, 99999, 100000, -1, -12345, 10 ** 17)]
                 sample += [[7, [2, codes('x'), [[2, 1], [1, 2]], [3, 100000], [3, 100000], 0]],
                            [7, [3, codes('x'), [[2, 2, 2], [1, 1]], [[[1], [5]], [[], []]], 1]],
                            [7, [4, [10, 7], 13, 2, [0, 1], 0, [[0, 4]], [[3, 3, 3, 1], [2, 2, 2, 1]]]],
+                           [73, [[4, 6, 50], 6000, 4, [[-1, 2]], 0, [[[-1, 4], [2, 8]]], [[4], [6], [50]]]],
+                           [73, [[10, 7], 13, 2, [[0, 17]], 1, [[[0, 5]]], []]], [73, [[10, 7], 13, 2, [], 1, [], []]],
                            [7, [5, codes('/a_b/c_d/00000_00001.npy')]],
                            [71, [1, [2, 3], 1]], [71, [2, [2, 3, 2], 1]], [71, [2, [], 1]],
                            [72, [2, [[0, codes('x'), 7, 1, [[2, 2]], [0], 0], [0, codes('x'), 7, 2, [[2, 2]], [4], 4000],
@@ -1340,6 +1591,8 @@ def replay(ctx, doc):
                 run_layout_cases(ctx, be, [(backend, case)])
             elif op == 'foreign':
                 run_foreign_cases(ctx, be, [(backend, case)])
+            elif op == 'mismatch':
+                run_mismatch_cases(ctx, be, [(backend, case)])
             elif op == 'normalise_bucket':
                 mo = ctx.model([[7, [5, codes(case['path'])]]])[0]
                 u = _normalise_bucket_name('http://127.0.0.1:9000' + case['path'])
